@@ -111,8 +111,17 @@ def path_name(path):
     return ">".join(c.name for c in path)
 
 
-def cases_for(payloads, depth, family, tier_paths=None):
-    """the complete product contexts x payloads"""
+# Independent, legal statements put at the very START of the file: the verdict on the rest must not depend on them.  Each one
+# leaves something behind in the checker's per-file state (constraint sets forked by a branch, shadowing offsets, caught classes).
+NOISE = {
+    "none-in-branch": ["def zn0: Int? := 1", "def zc0 := True", "if zc0 then", "    zn0 := None", "else", '    print("z")'],
+    "shadow-in-branches": ["def zc1 := True", "if zc1 then", "    def zl: Int := 1", "    print(zl)", "else", '    def zl: Str := "s"', "    print(zl)"],
+    "handle-and-match": ["class ZE(msg: Str): Exception(msg)", "def zr(n: Int) -> Int raise [ZE] => n", "def zm: Int := zr(1) handle", "    err: ZE => 0", "match zm", "    1 => print(1)", "    other => print(other)"],
+}
+
+
+def cases_for(payloads, depth, family, tier_paths=None, noise=()):
+    """the complete product contexts x payloads (x the given noise prefixes, as additional cases)"""
     paths = tier_paths or context_paths(depth)
     n = 0
     for p in payloads:
@@ -124,3 +133,9 @@ def cases_for(payloads, depth, family, tier_paths=None):
             n += 1
             yield {"id": "%s-%d" % (family, n), "family": "%s.%s" % (family, p["kind"]), "src": src, "expect": p["expect"],
                    "fault_line": line, "tags": list(p["tags"]) + ["ctx:" + path_name(path), "expect:" + p["expect"]]}
+            for nz in noise:
+                lines = NOISE[nz]
+                n += 1
+                yield {"id": "%s-%d" % (family, n), "family": "%s.%s" % (family, p["kind"]), "src": "\n".join(lines) + "\n" + src, "expect": p["expect"],
+                       "fault_line": None if line is None else line + len(lines),
+                       "tags": list(p["tags"]) + ["ctx:" + path_name(path), "expect:" + p["expect"], "noise:" + nz]}
